@@ -167,27 +167,27 @@ Proof.
   destruct (v =? 2 ^ Z.to_N w - 1)%N; reflexivity.
 Qed.
 
-Lemma all_ones_ones n : all_ones (ones n) = true.
+Lemma all_ones_ones n : bits_all_ones (ones n) = true.
 Proof. induction n as [|n IH]; [reflexivity|]. cbn. exact IH. Qed.
 
-Lemma all_ones_eq b : all_ones b = true -> b = ones (length b).
+Lemma all_ones_eq b : bits_all_ones b = true -> b = ones (length b).
 Proof.
-  induction b as [|x b IH]; [reflexivity|]. cbn [all_ones forallb length ones repeat].
+  induction b as [|x b IH]; [reflexivity|]. cbn [bits_all_ones forallb length ones repeat].
   intros H. apply andb_true_iff in H as [-> H]. f_equal. apply IH, H.
 Qed.
 
 (* a field consists of ones only iff its value is 2^length - 1 *)
 Lemma all_ones_of_bits b :
-  all_ones b = (of_bits b =? 2 ^ N.of_nat (length b) - 1)%N.
+  bits_all_ones b = (of_bits b =? 2 ^ N.of_nat (length b) - 1)%N.
 Proof.
   destruct (N.eqb_spec (of_bits b) (2 ^ N.of_nat (length b) - 1)) as [E|E].
   - rewrite <- (to_bits_of_bits b), E, to_bits_ones. apply all_ones_ones.
-  - destruct (all_ones b) eqn:A; [|reflexivity]. exfalso. apply E.
+  - destruct (bits_all_ones b) eqn:A; [|reflexivity]. exfalso. apply E.
     rewrite (all_ones_eq b A) at 1. rewrite of_bits_ones. reflexivity.
 Qed.
 
 Lemma to_bits_allones_iff n v :
-  (v < 2 ^ N.of_nat n)%N -> all_ones (to_bits n v) = (v =? 2 ^ N.of_nat n - 1)%N.
+  (v < 2 ^ N.of_nat n)%N -> bits_all_ones (to_bits n v) = (v =? 2 ^ N.of_nat n - 1)%N.
 Proof.
   intros Hv. rewrite all_ones_of_bits, length_to_bits, of_bits_to_bits by exact Hv. reflexivity.
 Qed.
@@ -263,11 +263,11 @@ Proof.
 Qed.
 
 (* the base field: not the missing pattern (a one-bit base has none) *)
-Definition base_ok (w : Z) (base : N) : Prop :=
+Definition col_base_ok (w : Z) (base : N) : Prop :=
   (base < 2 ^ Z.to_N w)%N /\ ((1 < w)%Z -> base <> (2 ^ Z.to_N w - 1)%N).
 
 Lemma read_base w base t :
-  (1 <= w <= 64)%Z -> base_ok w base ->
+  (1 <= w <= 64)%Z -> col_base_ok w base ->
   read_uint_or_none w (to_bits (Z.to_nat w) base ++ t) = Ok (Some base, t).
 Proof.
   intros Hw [Hlt Hne]. rewrite read_uon_to_bits by assumption.
@@ -280,7 +280,7 @@ Qed.
    width wd in 1..63 (all the 6-bit field can announce besides 0) decodes to
    exactly that column and the reader stops at the end of the column. *)
 Theorem dec_col_any_width w wd base raws t :
-  (1 <= w <= 64)%Z -> (1 <= wd <= 63)%Z -> base_ok w base ->
+  (1 <= w <= 64)%Z -> (1 <= wd <= 63)%Z -> col_base_ok w base ->
   (forall x, In (Some x) raws -> (base <= x /\ x - base < 2 ^ Z.to_N wd - 1)%N) ->
   dec_col_num w (length raws) (lay_col_num w wd base raws ++ t) = Ok (raws, t).
 Proof.
@@ -293,7 +293,7 @@ Qed.
 
 (* width 0: all subsets carry the base value *)
 Theorem dec_col_width0 w base n t :
-  (1 <= w <= 64)%Z -> base_ok w base ->
+  (1 <= w <= 64)%Z -> col_base_ok w base ->
   dec_col_num w n (to_bits (Z.to_nat w) base ++ zeros 6 ++ t) = Ok (repeat (Some base) n, t).
 Proof.
   intros Hw Hbase. unfold dec_col_num.
@@ -414,11 +414,11 @@ Qed.
 (* 6. round trip of numeric columns                                              *)
 (* ========================================================================== *)
 
-Lemma opt_eqb_eq a b : opt_eqb a b = true -> a = b.
+Lemma opt_eqb_eq a b : optz_eqb a b = true -> a = b.
 Proof. destruct a, b; cbn; intros H; try discriminate; [f_equal; lia|reflexivity]. Qed.
 
 Lemma forallb_eq_repeat (v0 : option Z) l :
-  forallb (opt_eqb v0) l = true -> l = repeat v0 (length l).
+  forallb (optz_eqb v0) l = true -> l = repeat v0 (length l).
 Proof.
   induction l as [|v l IH]; [reflexivity|]. cbn [forallb length repeat].
   intros H. apply andb_true_iff in H as [H1 H2]. apply opt_eqb_eq in H1. subst v.
@@ -431,21 +431,21 @@ Proof. unfold raw_view. induction n as [|n IH]; [reflexivity|]. cbn [repeat map]
 (* the general statement behind the round-trip theorems: any width 1..64; the
    present values avoid the missing pattern of the element (a one-bit element
    has none); an all-missing column needs an element wider than one bit *)
-Definition value_ok (w : Z) (x : Z) : Prop :=
+Definition col_value_ok (w : Z) (x : Z) : Prop :=
   (0 <= x < 2 ^ w)%Z /\ ((1 < w)%Z -> x <> (2 ^ w - 1)%Z).
 
-Lemma value_ok_base w x : (1 <= w)%Z -> value_ok w x -> base_ok w (Z.to_N x).
+Lemma value_ok_base w x : (1 <= w)%Z -> col_value_ok w x -> col_base_ok w (Z.to_N x).
 Proof.
-  intros Hw [Hr Hne]. unfold base_ok. rewrite <- Z2N_pow2 by lia. split; [lia|].
+  intros Hw [Hr Hne]. unfold col_base_ok. rewrite <- Z2N_pow2 by lia. split; [lia|].
   intros H1 E. apply (Hne H1). pose proof (pow2_pos_Z w ltac:(lia)). lia.
 Qed.
 
 Theorem col_roundtrip_gen w ae raws o t :
   (1 <= w <= 64)%Z ->
-  flag_ok ae raws = true ->
-  (forall x, In (Some x) raws -> value_ok w x) ->
+  col_flag_ok ae raws = true ->
+  (forall x, In (Some x) raws -> col_value_ok w x) ->
   (w = 1%Z -> ae = true -> In None raws -> False) ->
-  spread_ok raws = true ->
+  col_spread_ok raws = true ->
   exists e, enc_col_num w ae raws o = Ok (o ++ e) /\
             dec_col_num w (length raws) (e ++ t) = Ok (raw_view raws, t).
 Proof.
@@ -455,13 +455,13 @@ Proof.
   assert (Hp := pow2_pos_Z w ltac:(lia)).
   destruct ae.
   - (* the caller says all values are equal *)
-    cbn [flag_ok raws] in Hflag. fold raws in Hflag.
+    cbn [col_flag_ok raws] in Hflag. fold raws in Hflag.
     apply forallb_eq_repeat in Hflag.
     destruct v0 as [v|].
     + (* all equal to v *)
       destruct (Hval v (or_introl eq_refl)) as [Hr Hne].
       exists (to_bits (Z.to_nat w) (Z.to_N v) ++ zeros 6). split.
-      * unfold enc_col_num, raws. cbn [andb is_none bind].
+      * unfold enc_col_num, raws. cbn [andb opt_is_none bind].
         rewrite col_header_ok by lia. reflexivity.
       * rewrite <- app_assoc. rewrite dec_col_width0; [|lia|apply value_ok_base; [lia|split; assumption]].
         rewrite Hflag at 2. rewrite raw_view_repeat. reflexivity.
@@ -469,20 +469,20 @@ Proof.
       assert (Hw2 : (2 <= w)%Z).
       { destruct (Z.eq_dec w 1) as [E|E]; [|lia]. exfalso. apply (H1bit E eq_refl). left. reflexivity. }
       exists (lay_col_missing w). split.
-      * unfold enc_col_num, raws. cbn [andb is_none].
+      * unfold enc_col_num, raws. cbn [andb opt_is_none].
         rewrite numeric_missing_ok by lia. cbn [bind].
         rewrite col_header_ok by lia. unfold lay_col_missing.
         rewrite Z2N_pow2m1 by lia. rewrite to_bits_ones_Z by lia. reflexivity.
       * rewrite dec_col_all_missing by lia.
         rewrite Hflag at 2. rewrite raw_view_repeat. reflexivity.
   - (* general branch *)
-    cbn [flag_ok raws] in Hflag. fold raws in Hflag.
+    cbn [col_flag_ok raws] in Hflag. fold raws in Hflag.
     destruct (minmax raws) as [[mn mx]|] eqn:Hmm.
     2:{ exfalso. apply existsb_exists in Hflag as (v & Hin & Hv).
         rewrite (proj1 (minmax_none raws) Hmm v Hin) in Hv. discriminate. }
     destruct (minmax_spec raws mn mx Hmm) as (Imn & Imx & Hall).
     destruct (Hval mn Imn) as [Hmnr Hmnne].
-    unfold spread_ok in Hspread. rewrite Hmm in Hspread.
+    unfold col_spread_ok in Hspread. rewrite Hmm in Hspread.
     destruct (enc_col_num_layout w raws o mn mx) as (Hnd & Hdiff & Henc);
       [lia|discriminate|exact Hmm|lia|lia|].
     set (nd := Z.of_N (nbits_for_uint (Z.to_N (mx - mn + 1)))) in *.
@@ -495,7 +495,7 @@ Proof.
     rewrite Hpn. pose proof (pow2_pos_Z nd ltac:(lia)). lia.
 Qed.
 
-Lemma in_range_ok w x : (2 <= w)%Z -> in_range w (Some x) = true -> value_ok w x.
+Lemma in_range_ok w x : (2 <= w)%Z -> col_in_range w (Some x) = true -> col_value_ok w x.
 Proof.
   intros Hw H. cbn in H. pose proof (pow2_pos_Z w ltac:(lia)). split; lia.
 Qed.
@@ -518,9 +518,9 @@ Qed.
 
 (* for elements of at most 62 bits the spread condition is automatic *)
 Lemma spread_ok_small w raws :
-  (w <= 62)%Z -> forallb (in_range w) raws = true -> spread_ok raws = true.
+  (w <= 62)%Z -> forallb (col_in_range w) raws = true -> col_spread_ok raws = true.
 Proof.
-  intros Hw Hr. unfold spread_ok. destruct (minmax raws) as [[mn mx]|] eqn:Hmm; [|reflexivity].
+  intros Hw Hr. unfold col_spread_ok. destruct (minmax raws) as [[mn mx]|] eqn:Hmm; [|reflexivity].
   destruct (minmax_spec raws mn mx Hmm) as (Imn & Imx & _).
   rewrite forallb_forall in Hr.
   pose proof (Hr _ Imn) as H1. pose proof (Hr _ Imx) as H2. cbn in H1, H2.
@@ -541,7 +541,7 @@ Proof.
   apply col_roundtrip_gen; try assumption; try lia.
   - intros x Hx. specialize (Hrange _ Hx). cbn in Hrange. split; [cbn; lia|lia].
   - intros _ _ Hin. specialize (Hrange _ Hin). discriminate.
-  - unfold spread_ok. destruct (minmax raws) as [[mn mx]|] eqn:Hmm; [|reflexivity].
+  - unfold col_spread_ok. destruct (minmax raws) as [[mn mx]|] eqn:Hmm; [|reflexivity].
     destruct (minmax_spec raws mn mx Hmm) as (Imn & Imx & _).
     pose proof (Hrange _ Imn) as H1. pose proof (Hrange _ Imx) as H2. cbn in H1, H2.
     change (2 ^ 63)%Z with 9223372036854775808%Z. lia.
@@ -550,7 +550,7 @@ Qed.
 (* a one-bit column WITH missing entries also survives compression unless it is
    missing throughout (that case is onebit_missing_refuted below) *)
 Theorem col_roundtrip_onebit_some_present ae raws o t :
-  flag_ok ae raws = true ->
+  col_flag_ok ae raws = true ->
   (forall x, In (Some x) raws -> (0 <= x <= 1)%Z) ->
   (exists x, In (Some x) raws) ->
   exists e, enc_col_num 1 ae raws o = Ok (o ++ e) /\
@@ -560,9 +560,9 @@ Proof.
   apply col_roundtrip_gen; try assumption; try lia.
   - intros x Hx. specialize (Hrange _ Hx). split; [cbn; lia|lia].
   - intros _ -> Hin. destruct raws as [|v0 raws']; [discriminate|].
-    cbn [flag_ok] in Hflag. rewrite forallb_forall in Hflag.
+    cbn [col_flag_ok] in Hflag. rewrite forallb_forall in Hflag.
     apply Hflag, opt_eqb_eq in Hx0. apply Hflag, opt_eqb_eq in Hin. congruence.
-  - unfold spread_ok. destruct (minmax raws) as [[mn mx]|] eqn:Hmm; [|reflexivity].
+  - unfold col_spread_ok. destruct (minmax raws) as [[mn mx]|] eqn:Hmm; [|reflexivity].
     destruct (minmax_spec raws mn mx Hmm) as (Imn & Imx & _).
     pose proof (Hrange _ Imn) as H1. pose proof (Hrange _ Imx) as H2.
     change (2 ^ 63)%Z with 9223372036854775808%Z. lia.
@@ -607,7 +607,7 @@ Proof.
   intros Hdn H Hok. unfold dec_col_num, dec_col_codeflag in *.
   destruct (read_uint_or_none w r) as [[mn r1]|e]; cbn [bind] in *; [|discriminate].
   destruct (read_uint NBITS_FOR_NBITS_DIFF r1) as [[nd r2]|e]; cbn [bind] in *; [|discriminate].
-  destruct mn as [m|]; cbn [is_none orb].
+  destruct mn as [m|]; cbn [opt_is_none orb].
   - destruct (nd =? 0)%N; [exact H|].
     apply dec_incs_codeflag_of_num; assumption.
   - destruct (nd =? 0)%N; [exact H|discriminate].
@@ -632,7 +632,7 @@ Qed.
 
 (* every legal width, code/flag reading *)
 Theorem dec_col_any_width_codeflag w dnbits wd base raws t :
-  (1 <= w <= 64)%Z -> (dnbits <= 64)%Z -> (1 <= wd <= 63)%Z -> base_ok w base ->
+  (1 <= w <= 64)%Z -> (dnbits <= 64)%Z -> (1 <= wd <= 63)%Z -> col_base_ok w base ->
   (forall x, In (Some x) raws -> (base <= x /\ x - base < 2 ^ Z.to_N wd - 1)%N) ->
   (forall x, In (Some x) raws -> (1 < dnbits)%Z -> x <> (2 ^ Z.to_N dnbits - 1)%N) ->
   dec_col_codeflag w dnbits (length raws) (lay_col_num w wd base raws ++ t) = Ok (raws, t).
@@ -659,7 +659,7 @@ Proof.
 Qed.
 
 Lemma forallb_opt_eqb_iff v0 l :
-  forallb (opt_eqb v0) l = true <-> (forall v, In v l -> v = v0).
+  forallb (optz_eqb v0) l = true <-> (forall v, In v l -> v = v0).
 Proof.
   rewrite forallb_forall. split; intros H v Hv.
   - symmetry. apply opt_eqb_eq, H, Hv.
@@ -675,7 +675,7 @@ Theorem width0_iff_all_equal w ae raws o :
   exists e, enc_col_num w ae raws o = Ok (o ++ e) /\
     (col_width_field w e = 0%N <-> ae = true) /\
     (col_width_field w e = 0%N -> forall v, In v raws -> v = hd None raws) /\
-    (all_ones (col_base_field w e) = true <-> (forall v, In v raws -> v = None)).
+    (bits_all_ones (col_base_field w e) = true <-> (forall v, In v raws -> v = None)).
 Proof.
   intros Hdom. pose proof Hdom as Hdom'. unfold col_dom_num in Hdom.
   apply andb_true_iff in Hdom as [H Hspread]. apply andb_true_iff in H as [H Hrange].
@@ -685,12 +685,12 @@ Proof.
   destruct raws as [|v0 raws']; [discriminate|].
   set (raws := v0 :: raws') in *.
   destruct ae.
-  - cbn [flag_ok raws] in Hflag. fold raws in Hflag.
+  - cbn [col_flag_ok raws] in Hflag. fold raws in Hflag.
     pose proof (proj1 (forallb_opt_eqb_iff v0 raws) Hflag) as Heq.
     destruct v0 as [v|].
     + pose proof (Hrange _ (or_introl eq_refl)) as Hv. cbn in Hv.
       exists (to_bits (Z.to_nat w) (Z.to_N v) ++ to_bits 6 0 ++ []). split.
-      * unfold enc_col_num, raws. cbn [andb is_none bind].
+      * unfold enc_col_num, raws. cbn [andb opt_is_none bind].
         rewrite col_header_ok by lia. rewrite app_nil_r. reflexivity.
       * destruct (width_field_lay w (to_bits 6 0) (to_bits (Z.to_nat w) (Z.to_N v)) [])
           as [-> ->]; [apply length_to_bits|reflexivity|].
@@ -700,7 +700,7 @@ Proof.
         -- intros E. exfalso. lia.
         -- intros Hnone. specialize (Hnone _ (or_introl eq_refl)). discriminate.
     + exists (ones (Z.to_nat w) ++ to_bits 6 0 ++ []). split.
-      * unfold enc_col_num, raws. cbn [andb is_none].
+      * unfold enc_col_num, raws. cbn [andb opt_is_none].
         rewrite numeric_missing_ok by lia. cbn [bind].
         rewrite col_header_ok by lia.
         rewrite Z2N_pow2m1 by lia. rewrite to_bits_ones_Z by lia. rewrite app_nil_r. reflexivity.
@@ -708,13 +708,13 @@ Proof.
           as [-> ->]; [unfold ones; apply repeat_length|reflexivity|].
         split; [split; reflexivity|]. split; [intros _; exact Heq|].
         rewrite all_ones_ones. split; [intros _; exact Heq|reflexivity].
-  - cbn [flag_ok raws] in Hflag. fold raws in Hflag.
+  - cbn [col_flag_ok raws] in Hflag. fold raws in Hflag.
     destruct (minmax raws) as [[mn mx]|] eqn:Hmm.
     2:{ exfalso. apply existsb_exists in Hflag as (v & Hin & Hv).
         rewrite (proj1 (minmax_none raws) Hmm v Hin) in Hv. discriminate. }
     destruct (minmax_spec raws mn mx Hmm) as (Imn & Imx & Hall).
     pose proof (Hrange _ Imn) as Hmn. cbn in Hmn.
-    unfold spread_ok in Hspread. rewrite Hmm in Hspread.
+    unfold col_spread_ok in Hspread. rewrite Hmm in Hspread.
     destruct (enc_col_num_layout w raws o mn mx) as (Hnd & Hdiff & Henc);
       [lia|discriminate|exact Hmm|lia|lia|].
     set (nd := Z.of_N (nbits_for_uint (Z.to_N (mx - mn + 1)))) in *.
@@ -741,7 +741,7 @@ Theorem allones_iff_missing w raws o :
     (2 <= nd <= 63)%Z /\
     Forall2 (fun v inc =>
                length inc = Z.to_nat nd /\
-               (all_ones inc = true <-> v = None) /\
+               (bits_all_ones inc = true <-> v = None) /\
                (forall x, v = Some x -> (base + of_bits inc)%N = Z.to_N x)) raws incs.
 Proof.
   intros Hdom. unfold col_dom_num in Hdom.
@@ -751,13 +751,13 @@ Proof.
   rewrite forallb_forall in Hrange.
   destruct raws as [|v0 raws']; [discriminate|].
   set (raws := v0 :: raws') in *.
-  cbn [flag_ok raws] in Hflag. fold raws in Hflag.
+  cbn [col_flag_ok raws] in Hflag. fold raws in Hflag.
   destruct (minmax raws) as [[mn mx]|] eqn:Hmm.
   2:{ exfalso. apply existsb_exists in Hflag as (v & Hin & Hv).
       rewrite (proj1 (minmax_none raws) Hmm v Hin) in Hv. discriminate. }
   destruct (minmax_spec raws mn mx Hmm) as (Imn & Imx & Hall).
   pose proof (Hrange _ Imn) as Hmn. cbn in Hmn.
-  unfold spread_ok in Hspread. rewrite Hmm in Hspread.
+  unfold col_spread_ok in Hspread. rewrite Hmm in Hspread.
   destruct (enc_col_num_layout w raws o mn mx) as (Hnd & Hdiff & Henc);
     [lia|discriminate|exact Hmm|lia|lia|].
   set (nd := Z.of_N (nbits_for_uint (Z.to_N (mx - mn + 1)))) in *.
@@ -832,18 +832,18 @@ Proof.
   unfold read_uint at 1. destruct (Z.leb_spec w 0); [lia|].
   destruct (take_bits (Z.to_nat w) r) as [[b0 r1]|e] eqn:E0; cbn [bind]; [|reflexivity].
   apply take_bits_ok in E0 as [_ Hl0].
-  assert (Hmiss : ((1 <? w)%Z && all_ones b0) =
+  assert (Hmiss : ((1 <? w)%Z && bits_all_ones b0) =
                   ((1 <? w)%Z && (of_bits b0 =? missing_value (Z.to_N w))%N)).
   { rewrite all_ones_of_bits, Hl0. unfold missing_value. rewrite Z2N_pow by lia. reflexivity. }
   rewrite Hmiss. clear Hmiss.
   assert (Htail : forall (m : option N),
     (let* (bw, r2) := take_bits 6 r1 in
      match N.to_nat (of_bits bw) with
-     | O => Ok (repeat (if is_none m then None else Some (of_bits b0)) n, r2)
-     | S _ as nb => if is_none m then Err EAssert else spec_incs nb (of_bits b0) n r2
+     | O => Ok (repeat (if opt_is_none m then None else Some (of_bits b0)) n, r2)
+     | S _ as nb => if opt_is_none m then Err EAssert else spec_incs nb (of_bits b0) n r2
      end) =
     (let* (nd, r2) := read_uint NBITS_FOR_NBITS_DIFF r1 in
-     match (if is_none m then None else Some (of_bits b0)) with
+     match (if opt_is_none m then None else Some (of_bits b0)) with
      | None => if (nd =? 0)%N then Ok (repeat None n, r2) else Err EAssert
      | Some m0 => if (nd =? 0)%N then Ok (repeat (Some m0) n, r2) else dec_incs_num nd m0 n r2
      end)).
@@ -852,9 +852,9 @@ Proof.
     apply take_bits_ok in E6 as [_ Hl6]. pose proof (of_bits_lt bw) as Hlt. rewrite Hl6 in Hlt.
     change (2 ^ N.of_nat 6)%N with 64%N in Hlt.
     destruct (N.eqb_spec (of_bits bw) 0) as [Z0|Z0].
-    - rewrite Z0. cbn [N.to_nat]. destruct (is_none m); reflexivity.
+    - rewrite Z0. cbn [N.to_nat]. destruct (opt_is_none m); reflexivity.
     - destruct (N.to_nat (of_bits bw)) eqn:En; [lia|]. rewrite <- En.
-      destruct (is_none m); [reflexivity|].
+      destruct (opt_is_none m); [reflexivity|].
       rewrite spec_incs_agree by lia. rewrite N2Nat.id. reflexivity. }
   destruct (Z.ltb_spec 1 w) as [H1|H1]; cbn [andb].
   - destruct (Z.ltb_spec 64 w); [lia|].
@@ -880,7 +880,7 @@ Qed.
 (* ========================================================================== *)
 
 Theorem fields_roundtrip_num w raws : forall o t,
-  (2 <= w <= 64)%Z -> forallb (in_range w) raws = true ->
+  (2 <= w <= 64)%Z -> forallb (col_in_range w) raws = true ->
   exists e, enc_fields_num w raws o = Ok (o ++ e) /\
             dec_fields_num w (length raws) (e ++ t) = Ok (raw_view raws, t).
 Proof.
@@ -931,11 +931,11 @@ Qed.
    uncompressed form: the two storage forms decode differently. *)
 Theorem onebit_missing_refuted :
   (exists raws ae e vs,
-     flag_ok ae raws = true /\ forallb (in_range 1) raws = true /\
+     col_flag_ok ae raws = true /\ forallb (col_in_range 1) raws = true /\
      enc_col_num 1 ae raws [] = Ok e /\ dec_col_num 1 (length raws) e = Ok (vs, []) /\
      vs <> raw_view raws) /\
   (exists raws ae ec eu vc vu,
-     flag_ok ae raws = true /\ forallb (in_range 1) raws = true /\
+     col_flag_ok ae raws = true /\ forallb (col_in_range 1) raws = true /\
      enc_col_num 1 ae raws [] = Ok ec /\ enc_fields_num 1 raws [] = Ok eu /\
      dec_col_num 1 (length raws) ec = Ok (vc, []) /\
      dec_fields_num 1 (length raws) eu = Ok (vu, []) /\
@@ -957,19 +957,19 @@ Qed.
 (* 11. character columns                                                         *)
 (* ========================================================================== *)
 
-Lemma bytes_eqb_eq a : forall b, bytes_eqb a b = true -> a = b.
+Lemma bytes_eqb_eq a : forall b, col_bytes_eqb a b = true -> a = b.
 Proof.
   induction a as [|x a IH]; intros [|y b]; cbn; intros H; try discriminate; [reflexivity|].
   apply andb_true_iff in H as [H1 H2]. f_equal; [lia|apply IH, H2].
 Qed.
 
-Lemma opt_bytes_eqb_eq a b : opt_bytes_eqb a b = true -> a = b.
+Lemma opt_bytes_eqb_eq a b : col_opt_bytes_eqb a b = true -> a = b.
 Proof.
   destruct a, b; cbn; intros H; try discriminate; [f_equal; apply bytes_eqb_eq, H|reflexivity].
 Qed.
 
 Lemma forallb_bytes_eq_repeat (v0 : option (list byte)) l :
-  forallb (opt_bytes_eqb v0) l = true -> l = repeat v0 (length l).
+  forallb (col_opt_bytes_eqb v0) l = true -> l = repeat v0 (length l).
 Proof.
   induction l as [|v l IH]; [reflexivity|]. cbn [forallb length repeat].
   intros H. apply andb_true_iff in H as [H1 H2]. apply opt_bytes_eqb_eq in H1. subst v.
@@ -982,7 +982,7 @@ Proof.
   apply repeat_spec in Hx. subst. exact Hb.
 Qed.
 
-Lemma str_or_missing_ok n v : opt_bytes_ok v = true -> forallb is_byte (str_or_missing n v) = true.
+Lemma str_or_missing_ok n v : col_opt_bytes_ok v = true -> forallb is_byte (str_or_missing n v) = true.
 Proof. destruct v; cbn; [auto|]. intros _. apply is_byte_rep. reflexivity. Qed.
 
 Lemma pad_bytes_rep b n : (0 <= n)%Z -> pad_bytes (bytes_rep b n) (Z.to_nat n) = bytes_rep b n.
@@ -991,11 +991,11 @@ Proof.
   rewrite app_nil_r. rewrite <- (repeat_length b (Z.to_nat n)) at 1. apply firstn_all.
 Qed.
 
-Lemma is_prefix_refl x : is_prefix x x = true.
+Lemma is_prefix_refl x : bytes_is_prefix x x = true.
 Proof. induction x as [|a x IH]; [reflexivity|]. cbn. rewrite N.eqb_refl. exact IH. Qed.
 
-Lemma is_infix_refl x : is_infix x x = true.
-Proof. destruct x; cbn [is_infix]; rewrite is_prefix_refl; reflexivity. Qed.
+Lemma is_infix_refl x : bytes_is_infix x x = true.
+Proof. destruct x; cbn [bytes_is_infix]; rewrite is_prefix_refl; reflexivity. Qed.
 
 Lemma write_bytes_ok v n o :
   (0 <= n)%Z -> write_bytes v n o = Ok (o ++ bits_of_bytes (pad_bytes v (Z.to_nat n))).
@@ -1012,7 +1012,7 @@ Qed.
 
 (* the increments of a character column *)
 Lemma str_incs_roundtrip nb vals : forall o t,
-  (0 <= nb)%Z -> forallb opt_bytes_ok vals = true ->
+  (0 <= nb)%Z -> forallb col_opt_bytes_ok vals = true ->
   exists e, write_bytes_list (map (str_or_missing nb) vals) nb o = Ok (o ++ e) /\
             dec_incs_str nb [] (length vals) (e ++ t) = Ok (str_view nb vals, t).
 Proof.
@@ -1053,12 +1053,12 @@ Proof.
   set (vals := v0 :: vals') in *.
   destruct ae.
   - (* all equal (or all missing): base = the string, width 0 *)
-    cbn [flag_ok_str vals] in Hflag. fold vals in Hflag.
+    cbn [col_flag_ok_str vals] in Hflag. fold vals in Hflag.
     apply forallb_bytes_eq_repeat in Hflag.
-    assert (Hv0 : opt_bytes_ok v0 = true).
+    assert (Hv0 : col_opt_bytes_ok v0 = true).
     { cbn [forallb vals] in Hok. apply andb_true_iff in Hok as [Hv _]. exact Hv. }
     set (mv := str_or_missing nb v0).
-    assert (Emv : (if true && is_none v0 then bytes_rep 255%N nb
+    assert (Emv : (if true && opt_is_none v0 then bytes_rep 255%N nb
                    else if true then str_or_missing nb v0 else bytes_rep 0%N nb) = mv).
     { unfold mv. destruct v0; reflexivity. }
     exists (bits_of_bytes (pad_bytes mv (Z.to_nat nb)) ++ zeros 6). split.
@@ -1107,7 +1107,7 @@ Qed.
 
 (* the uncompressed form of a character column *)
 Theorem fields_roundtrip_str nb vals : forall o t,
-  (0 <= nb)%Z -> forallb opt_bytes_ok vals = true ->
+  (0 <= nb)%Z -> forallb col_opt_bytes_ok vals = true ->
   exists e, enc_fields_str nb vals o = Ok (o ++ e) /\
             dec_fields_str nb (length vals) (e ++ t) = Ok (str_view nb vals, t).
 Proof.
@@ -1260,4 +1260,15 @@ Example spread_too_large_refused :
   enc_col_num 64 false [Some 0; Some (2 ^ 64 - 2)]%Z [] = Err EValue /\
   col_dom_num 64 false [Some 0; Some (2 ^ 64 - 2)]%Z = false /\
   col_dom_num 64 false [Some 5; None; Some (2 ^ 63 + 2)]%Z = true.
+Proof. split; [|split]; vm_compute; reflexivity. Qed.
+
+(* Outside the property's domain (observation, reproduced on the implementation):
+   when the only present value of a partly missing column IS the element's
+   all-ones pattern, the encoder writes an all-ones base with a non-zero width —
+   a column its own decoder refuses (assert).  The quantifier of C05 excludes
+   the value 2^w - 1, which is the encoding of "missing". *)
+Example allones_value_with_missing_is_refused :
+  col_dom_num 3 false [None; Some 7]%Z = false /\
+  (let* o := enc_col_num 3 false [None; Some 7]%Z [] in dec_col_num 3 2 o) = Err EAssert /\
+  (let* o := enc_fields_num 3 [None; Some 7]%Z [] in dec_fields_num 3 2 o) = Ok ([None; None], []).
 Proof. split; [|split]; vm_compute; reflexivity. Qed.
